@@ -1,8 +1,9 @@
 import McpModel.Base.Proto
 import McpModel.Preflight.Monitor
 /-!
-Driver for E8 Preflight (C12).  Replays every harness record on the model (`Preflight.verdict` and the helper
-functions) and evaluates the C12 monitors on the IMPLEMENTATION's observation:
+Driver for E8 Preflight (C12): the STRING LAYER.  Replays every harness record on the model (`Preflight.verdict` and the
+helper functions), parses the IMPLEMENTATION's observation into the typed observation of `Monitor.lean`, runs the typed
+C12 monitor of the record's kind on it and renders the clause it reports:
 
 * `dispatch_sound`      — a request answered 200/202 satisfies every documented precondition;
 * `rejected ⇒ untouched` — any other status: no middleware / handler saw a message (`R=0 H=0`);
@@ -12,8 +13,10 @@ functions) and evaluates the C12 monitors on the IMPLEMENTATION's observation:
                           arguments that were sent;
 * `decode_encode_header_value`, `primitiveEqual_refl_on_safe_ints`, `accepts_table` on the helper records.
 
-The monitor has its own copies of the specification constants (2^53−1, the media types, the codes).
-Base64 is instantiated with a concrete `StdEncoding` (padding required, CR/LF ignored, non-strict trailing bits).
+What decides whether and which clause is violated is in `Monitor.lean` (bridged to the model by `Bridge.lean`, to the
+property by `Sound.lean`).  Here: the token parser, the renderers of the model's observation (the equality test
+`impl = model` is on these strings), the clause texts, the fall-back clauses for observations that cannot be read, and
+the concrete base64 (Go `StdEncoding`: padding required, CR/LF ignored, non-strict trailing bits).
 -/
 namespace Preflight
 open Proto
